@@ -216,6 +216,16 @@ theorem fp12_back_cyc_exceptional_partial (a x : Fp12 F) (h : IsCyc12 ξ a)
     (fp12BackCyc (fieldOps hf) (fun t => ξ * t) false x).c1.c1 = a.c1.c1 ↔ a.c0.c1 * (4 * a.c1.c2 - 3 * a.c0.c1) = 0 :=
   fp12BackCyc_exc_iff hf ξ a x h h01 h02 h10 h12 hg2 hg3
 
+/-- the repair proposed in findings/C10-3.md and C10-8.md (`fp12BackCycFixed`: numerator 2·g4·g5 kept in the exceptional
+    branch, identity recognised by its compressed form) decompresses EVERY element of the cyclotomic subgroup, from any
+    operand carrying its four retained coefficients. Field hypotheses: 2, 3 ≠ 0, ξ not a square, −3 a square (true in
+    fp2 for the towers the library builds). This is the full-strength statement the code of /repo fails. -/
+theorem fp12_back_cyc_repaired (h2 : (2 : F) ≠ 0) (h3 : (3 : F) ≠ 0) (hns : ∀ y : F, y ^ 2 ≠ ξ) (ω : F) (hω : ω ^ 2 = -3)
+    (a x : Fp12 F) (h : IsCyc12 ξ a) (hne : NonZero12 a)
+    (h01 : x.c0.c1 = a.c0.c1) (h02 : x.c0.c2 = a.c0.c2) (h10 : x.c1.c0 = a.c1.c0) (h12 : x.c1.c2 = a.c1.c2) :
+    fp12BackCycFixed (fieldOps hf) (fun t => ξ * t) x = a :=
+  fp12BackCycFixed_eq hf ξ h2 h3 hns ω hω a x h hne h01 h02 h10 h12
+
 end decompression
 
 /-! ## §4 the stacked model of the driver -/
